@@ -67,67 +67,102 @@ theorem solo_dec (cfg : Cfg) (now tid : Nat) (r : Rid) (q : QId) (h : Hdrs) :
       simp only [solo, soloStep, stepThread]
       exact ih _ n hn
 
-theorem solo_inc (cfg : Cfg) (now tid : Nat) (r : Rid) (q : QId) (h : Hdrs) (hq : chain cfg q ≠ []) :
-    ∀ (todo : List (QId × QuotaCfg)) (st : St) (n : Nat), todo ≠ [] →
-      (todo.length + (chain cfg q).length ≤ n →
-        solo cfg now tid n (st, ⟨r, q, h, .inc todo true⟩) =
-          ((allowedChain (incChain st todo r now h) (chain cfg q) r h).1,
-           ⟨r, q, h, .done (some (allowedChain (incChain st todo r now h) (chain cfg q) r h).2)⟩)) ∧
-      (todo.length ≤ n →
-        solo cfg now tid n (st, ⟨r, q, h, .inc todo false⟩) = (incChain st todo r now h, ⟨r, q, h, .done none⟩)) := by
+/-- Give back the charges of the listed levels, in order. -/
+def refundAll (st : St) : List (QId × QuotaCfg) → Rid → Hdrs → St
+  | [], _, _ => st
+  | (a, c) :: rest, r, h =>
+    refundAll (KMap.set st (a, groupOf c h) (refundLevel (st.at (a, groupOf c h)) r).1) rest r h
+
+/-- What remains to be done once the `Inc` walk is over. -/
+def finish (cfg : Cfg) (q : QId) (r : Rid) (h : Hdrs) (thenA : Bool) (st : St) : St × Thread :=
+  if thenA then ((allowedChain st (chain cfg q) r h).1, ⟨r, q, h, .done (some (allowedChain st (chain cfg q) r h).2)⟩)
+  else (st, ⟨r, q, h, .done none⟩)
+
+theorem solo_after (cfg : Cfg) (now tid : Nat) (r : Rid) (q : QId) (h : Hdrs) (hq : chain cfg q ≠ []) (thenA : Bool)
+    (st : St) (n : Nat) (hn : (chain cfg q).length ≤ n) :
+    solo cfg now tid n (st, ⟨r, q, h, afterInc cfg q thenA⟩) = finish cfg q r h thenA st := by
+  cases thenA with
+  | true => simpa [afterInc, finish] using solo_allowed cfg now tid r q h _ st n hq hn
+  | false => simpa [afterInc, finish] using solo_done cfg now tid st r q h none n
+
+theorem solo_refund (cfg : Cfg) (now tid : Nat) (r : Rid) (q : QId) (h : Hdrs) (hq : chain cfg q ≠ []) (thenA : Bool) :
+    ∀ (todo : List (QId × QuotaCfg)) (st : St) (n : Nat), todo ≠ [] → todo.length + (chain cfg q).length ≤ n →
+      solo cfg now tid n (st, ⟨r, q, h, .refund todo thenA⟩) = finish cfg q r h thenA (refundAll st todo r h) := by
   intro todo
   induction todo with
   | nil => intro st n hne; exact absurd rfl hne
   | cons ac rest ih =>
-    intro st n _
+    intro st n _ hn
     obtain ⟨a, c⟩ := ac
-    constructor
-    · intro hn
-      cases n with
-      | zero => simp at hn
-      | succ n =>
-        simp only [List.length_cons] at hn
-        rw [incChain_cons]
-        simp only [solo, soloStep, stepThread]
+    cases n with
+    | zero => simp at hn
+    | succ n =>
+      simp only [List.length_cons] at hn
+      simp only [solo, soloStep, stepThread, refundAll]
+      cases rest with
+      | nil =>
+        simp only [refundNext, refundAll]
+        exact solo_after cfg now tid r q h hq thenA _ n (by simp at hn; omega)
+      | cons x xs =>
+        simp only [refundNext]
+        exact ih _ n (by simp) (by simp only [List.length_cons] at hn ⊢; omega)
+
+/-- State reached by the `Inc` walk over `todo` when the levels in `charged` were charged before it. -/
+def incOutcome (st : St) (todo charged : List (QId × QuotaCfg)) (r : Rid) (t : Nat) (h : Hdrs) : St :=
+  if (incChain st todo r t h).2 = IncRes.blocked then refundAll (incChain st todo r t h).1 charged r h
+  else (incChain st todo r t h).1
+
+theorem solo_inc (cfg : Cfg) (now tid : Nat) (r : Rid) (q : QId) (h : Hdrs) (hq : chain cfg q ≠ []) (thenA : Bool) :
+    ∀ (todo charged : List (QId × QuotaCfg)) (st : St) (n : Nat), todo ≠ [] →
+      2 * todo.length + charged.length + (chain cfg q).length ≤ n →
+      solo cfg now tid n (st, ⟨r, q, h, .inc todo charged thenA⟩) =
+        finish cfg q r h thenA (incOutcome st todo charged r now h) := by
+  intro todo
+  induction todo with
+  | nil => intro charged st n hne; exact absurd rfl hne
+  | cons ac rest ih =>
+    intro charged st n _ hn
+    obtain ⟨a, c⟩ := ac
+    cases n with
+    | zero => simp at hn
+    | succ n =>
+      simp only [List.length_cons] at hn
+      simp only [solo, soloStep, stepThread]
+      unfold incOutcome
+      rw [incChain_cons]
+      cases hres : (incLevel c.max c.win (st.at (a, groupOf c h)) r now).2 with
+      | increased =>
+        simp only [if_true]
         cases rest with
         | nil =>
-          simp only [incChain, ite_self]
-          cases hres : (incLevel c.max c.win (st.at (a, groupOf c h)) r now).2 <;>
-            exact solo_allowed cfg now tid r q h _ _ n hq (by simp at hn; omega)
+          simp only [incNext, incChain]
+          have : ¬ (IncRes.increased = IncRes.blocked) := by simp
+          simp only [this, if_false]
+          exact solo_after cfg now tid r q h hq thenA _ n (by omega)
         | cons x xs =>
-          cases hres : (incLevel c.max c.win (st.at (a, groupOf c h)) r now).2 with
-          | increased =>
-            simp only [if_true]
-            exact (ih _ n (by simp)).1 (by simp only [List.length_cons] at hn ⊢; omega)
-          | already =>
-            simp only [if_false, reduceCtorEq]
-            exact solo_allowed cfg now tid r q h _ _ n hq (by simp only [List.length_cons] at hn; omega)
-          | blocked =>
-            simp only [if_false, reduceCtorEq]
-            exact solo_allowed cfg now tid r q h _ _ n hq (by simp only [List.length_cons] at hn; omega)
-    · intro hn
-      cases n with
-      | zero => simp at hn
-      | succ n =>
-        simp only [List.length_cons, Nat.add_le_add_iff_right] at hn
-        rw [incChain_cons]
-        simp only [solo, soloStep, stepThread]
-        cases rest with
+          simp only [incNext]
+          rw [ih ((a, c) :: charged) _ n (by simp) (by simp only [List.length_cons] at hn ⊢; omega)]
+          unfold incOutcome
+          by_cases hin : (incChain (KMap.set st (a, groupOf c h) (incLevel c.max c.win (st.at (a, groupOf c h)) r now).1)
+              (x :: xs) r now h).2 = IncRes.blocked
+          · simp only [hin, if_true, refundAll]
+          · have : ¬ (IncRes.increased = IncRes.blocked) := by simp
+            simp only [hin, if_false, this]
+      | blocked =>
+        have : ¬ (IncRes.blocked = IncRes.increased) := by simp
+        simp only [this, if_false, if_true]
+        cases charged with
         | nil =>
-          simp only [incChain, ite_self]
-          cases hres : (incLevel c.max c.win (st.at (a, groupOf c h)) r now).2 <;>
-            exact solo_done cfg now tid _ r q h _ n
-        | cons x xs =>
-          cases hres : (incLevel c.max c.win (st.at (a, groupOf c h)) r now).2 with
-          | increased =>
-            simp only [if_true]
-            exact (ih _ n (by simp)).2 hn
-          | already =>
-            simp only [if_false, reduceCtorEq]
-            exact solo_done cfg now tid _ r q h _ n
-          | blocked =>
-            simp only [if_false, reduceCtorEq]
-            exact solo_done cfg now tid _ r q h _ n
+          simp only [incNext, refundAll]
+          exact solo_after cfg now tid r q h hq thenA _ n (by omega)
+        | cons y ys =>
+          simp only [incNext]
+          exact solo_refund cfg now tid r q h hq thenA _ _ n (by simp) (by simp only [List.length_cons] at hn ⊢; omega)
+      | already =>
+        have h1 : ¬ (IncRes.already = IncRes.increased) := by simp
+        have h2 : ¬ (IncRes.already = IncRes.blocked) := by simp
+        simp only [h1, h2, if_false, incNext]
+        exact solo_after cfg now tid r q h hq thenA _ n (by omega)
 
 theorem act_step_eq (cfg : Cfg) (tid : Nat) (s : Sys) (th : Thread) (hth : s.threads[tid]? = some th) :
     (Sys.act cfg s (.step tid)).st = (soloStep cfg s.now tid (s.st, th)).1 ∧
@@ -153,10 +188,10 @@ theorem run_steps (cfg : Cfg) (tid : Nat) : ∀ (n : Nat) (s : Sys) (th : Thread
     simpa [List.replicate_succ, Sys.run, solo] using this
 
 /-- A call on an existing quota, spawned and run to completion without interleaving (at most
-    `2·depth + 1` steps; further steps of a finished thread do nothing), has exactly the effect and
+    `3·depth + 1` steps; further steps of a finished thread do nothing), has exactly the effect and
     the answer of `apiStep` at the current instant. -/
 theorem atomic_call (cfg : Cfg) (s : Sys) (kind : Kind) (q : QId) (r : Rid) (h : Hdrs)
-    (hq : chain cfg q ≠ []) (n : Nat) (hn : 2 * (chain cfg q).length + 1 ≤ n) :
+    (hq : chain cfg q ≠ []) (n : Nat) (hn : 3 * (chain cfg q).length + 1 ≤ n) :
     let s' := Sys.run cfg s (.spawn kind q r h :: List.replicate n (.step s.threads.length))
     s'.st = (apiStep cfg s.st ⟨kind, q, r, s.now, h⟩).1 ∧
     s'.threads[s.threads.length]? = some ⟨r, q, h, .done (apiStep cfg s.st ⟨kind, q, r, s.now, h⟩).2⟩ ∧
@@ -172,8 +207,12 @@ theorem atomic_call (cfg : Cfg) (s : Sys) (kind : Kind) (q : QId) (r : Rid) (h :
   have hsolo : solo cfg s.now s.threads.length n (s.st, ⟨r, q, h, spawnPc cfg kind q⟩) =
       ((apiStep cfg s.st ⟨kind, q, r, s.now, h⟩).1, ⟨r, q, h, .done (apiStep cfg s.st ⟨kind, q, r, s.now, h⟩).2⟩) := by
     cases kind with
-    | inc => simpa [spawnPc, apiStep] using (solo_inc cfg s.now _ r q h hq _ s.st n hq).2 (by omega)
-    | req => simpa [spawnPc, apiStep, limiter] using (solo_inc cfg s.now _ r q h hq _ s.st n hq).1 (by omega)
+    | inc =>
+      have := solo_inc cfg s.now s.threads.length r q h hq false _ [] s.st n hq (by simp; omega)
+      simpa [spawnPc, apiStep, finish, incOutcome, refundAll] using this
+    | req =>
+      have := solo_inc cfg s.now s.threads.length r q h hq true _ [] s.st n hq (by simp; omega)
+      simpa [spawnPc, apiStep, limiter, finish, incOutcome, refundAll] using this
     | allowed => simpa [spawnPc, apiStep] using solo_allowed cfg s.now _ r q h _ s.st n hq (by omega)
     | dec => simpa [spawnPc, apiStep] using solo_dec cfg s.now _ r q h _ s.st n (by omega)
   rw [hsolo] at hrun
@@ -197,7 +236,7 @@ theorem api_run_is_schedule (cfg : Cfg) : ∀ (ops : List Op) (s : Sys),
     obtain ⟨hle, hm'⟩ := hm
     let s1 := Sys.act cfg s (.tick (o.t - s.now))
     have hnow1 : s1.now = o.t := by simp only [s1, Sys.act]; omega
-    let n := 2 * (chain cfg o.q).length + 1
+    let n := 3 * (chain cfg o.q).length + 1
     let call := Act.spawn o.kind o.q o.r o.h :: List.replicate n (.step s1.threads.length)
     have hcall := atomic_call cfg s1 o.kind o.q o.r o.h (hq o (by simp)) n (Nat.le_refl _)
     simp only at hcall
